@@ -1,7 +1,10 @@
 package mon
 
 import (
+	"bytes"
 	"fmt"
+	"hash/fnv"
+	"io"
 	"sort"
 	"strings"
 
@@ -120,6 +123,66 @@ func newXMLWorld(d *adoc.Doc, g *rng.R) (*world, error) {
 		return nil, err
 	}
 	return &world{d: d, m: m, env: &refeval.Env{Doc: d, NS: canonNS}, opts: nsOpts(canonNS)}, nil
+}
+
+// hostileReader delivers b in a way chosen by mode: 0 whole (one Read), 1 chunks
+// of PRNG-free pseudo-random sizes 1..23 derived from the content, 2 one byte
+// per Read, 3 a Read ends right after every closing '}', ']' or '>'.
+func hostileReader(b []byte, mode int) (io.Reader, string) {
+	switch mode % 4 {
+	case 1:
+		h := fnv.New32a()
+		h.Write(b)
+		return &chunkReader{b: b, state: h.Sum32() | 1}, "pseudo-random chunks"
+	case 2:
+		return &chunkReader{b: b, one: true}, "one byte per Read"
+	case 3:
+		return &chunkReader{b: b, closers: true}, "Read ends after each closer"
+	}
+	return bytes.NewReader(b), "whole"
+}
+
+func contentMode(b []byte) int {
+	h := fnv.New32a()
+	h.Write(b)
+	return int(h.Sum32()>>3) % 4
+}
+
+type chunkReader struct {
+	b       []byte
+	state   uint32
+	one     bool
+	closers bool
+}
+
+func (c *chunkReader) Read(p []byte) (int, error) {
+	if len(c.b) == 0 {
+		return 0, io.EOF
+	}
+	n := 1
+	switch {
+	case c.one:
+	case c.closers:
+		n = len(c.b)
+		for i, x := range c.b {
+			if x == '}' || x == ']' || x == '>' {
+				n = i + 1
+				break
+			}
+		}
+	default:
+		c.state = c.state*1664525 + 1013904223
+		n = 1 + int(c.state>>16)%23
+	}
+	if n > len(p) {
+		n = len(p)
+	}
+	if n > len(c.b) {
+		n = len(c.b)
+	}
+	copy(p, c.b[:n])
+	c.b = c.b[n:]
+	return n, nil
 }
 
 // libEval executes expr from node n through the public API and converts the result.
